@@ -129,7 +129,9 @@ async fn startup_udp<const N: usize>(config: &ServerConfig<SslConfig>, user_mana
                             let mut src = BytesMut::from(&buf[..len]);
                             match SessionCodec::<N>::decode(&codec, &mut src) {
                                 Ok(Some((content, peer_addr, session))) => {
-                                    let key = session.client_session_id;
+                                    // the legacy AEAD ciphers carry neither session nor packet ids: one association per client address
+                                    let legacy = !config.cipher.is_aead_2022();
+                                    let key = if legacy { legacy_session_key(client_addr) } else { session.client_session_id };
                                     // one association that has ended, or one socket that cannot be created, must not
                                     // take the datagram service down for every other client
                                     if net_map.get(&key).is_some_and(|assoc| assoc.task.is_finished()) {
@@ -141,7 +143,7 @@ async fn startup_udp<const N: usize>(config: &ServerConfig<SslConfig>, user_mana
                                             net_map.remove(&key);
                                         }
                                     } else {
-                                        match UdpAssociateContext::create(&session, client_addr, tx.clone()).await {
+                                        match UdpAssociateContext::create(key, !legacy, client_addr, tx.clone()).await {
                                             Ok(assoc) => {
                                                 if let Err(e) = assoc.try_send((content, peer_addr, session)).await {
                                                     error!("[udp] association closed; client={client_addr}, error={e}");
@@ -172,6 +174,13 @@ async fn startup_udp<const N: usize>(config: &ServerConfig<SslConfig>, user_mana
     }
 }
 
+fn legacy_session_key(client_addr: SocketAddr) -> u64 {
+    match client_addr {
+        SocketAddr::V4(v4) => (u32::from(*v4.ip()) as u64) << 16 | v4.port() as u64,
+        SocketAddr::V6(v6) => (u128::from(*v6.ip()) as u64 ^ (u128::from(*v6.ip()) >> 64) as u64).rotate_left(16) ^ v6.port() as u64,
+    }
+}
+
 struct UdpAssociate<const N: usize> {
     task: JoinHandle<()>,
     sender: Sender<(BytesMut, Address, Session<N>)>,
@@ -192,6 +201,7 @@ impl<const N: usize> Drop for UdpAssociate<N> {
 
 struct UdpAssociateContext<const N: usize> {
     client_session_id: u64,
+    check_packet_id: bool,
     client_session_filter: PacketWindowFilter,
     client_addr: SocketAddr,
     inbound: Sender<(BytesMut, Address, SocketAddr, Session<N>)>,
@@ -203,7 +213,8 @@ struct UdpAssociateContext<const N: usize> {
 
 impl<const N: usize> UdpAssociateContext<N> {
     async fn create(
-        client_session: &Session<N>,
+        client_session_id: u64,
+        check_packet_id: bool,
         client_addr: SocketAddr,
         inbound: Sender<(BytesMut, Address, SocketAddr, Session<N>)>,
     ) -> anyhow::Result<UdpAssociate<N>> {
@@ -211,7 +222,8 @@ impl<const N: usize> UdpAssociateContext<N> {
 
         let outbound = UdpSocket::bind(SocketAddrV4::new(Ipv4Addr::UNSPECIFIED, 0)).await?;
         let mut assoc = Self {
-            client_session_id: client_session.client_session_id,
+            client_session_id,
+            check_packet_id,
             client_session_filter: PacketWindowFilter::new(),
             client_addr,
             inbound,
@@ -267,7 +279,7 @@ impl<const N: usize> UdpAssociateContext<N> {
                                     continue;
                                 },
                             };
-                            if !self.validate_packet_id(session.packet_id) {
+                            if self.check_packet_id && !self.validate_packet_id(session.packet_id) {
                                 error!("[udp] packet_id {} out of window; client={}, peer={}", session.packet_id, self.client_addr, peer_addr);
                                 continue;
                             }
